@@ -724,7 +724,10 @@ class Client:
                 return True
             return False
 
-        (active_script, scripts) = self.listscripts()
+        listing = self.listscripts()
+        if listing is None:
+            return False
+        (active_script, scripts) = listing
         condition = oldname != active_script and (
             scripts is None or oldname not in scripts
         )
